@@ -465,6 +465,11 @@ func (c *Check) justifyIndex(f *Func, pa *Path, i int, ev *Event) (bool, string)
 			return true, "constant bounds under a length fact"
 		}
 	}
+	// a cut inside a helper of the key builders: the key interpreter has executed it, with the shape of the value
+	// known, for every builder that reaches it (a cut running past the value makes that builder's shape unknown)
+	if c.keyHelperOnly(f, 0) {
+		return true, "cut inside a key-builder helper: evaluated on the known shape of every key builder that reaches it (key grammar K1)"
+	}
 	// key[len(prefix):] in a helper whose every caller passes a key of the prefix's own family
 	if hi.IsAt("_") && lo.Op == "len" && len(lo.A) == 1 && base.Op == "" && strings.HasPrefix(base.At, "P") {
 		if pi := stripConv(lo.A[0]); pi.Op == "" && strings.HasPrefix(pi.At, "P") && c.callersPassKeyOfPrefix(f, base.At, pi.At) {
@@ -641,4 +646,40 @@ func (c *Check) isIssuerCall(t *Term) bool {
 		}
 	}
 	return false
+}
+
+// keyHelperOnly: f is an unexported function of package types that is called only from key builders whose shape the
+// key interpreter has established (directly or through further such helpers).
+func (c *Check) keyHelperOnly(f *Func, depth int) bool {
+	if f == nil || f.Obj == nil || f.Obj.Exported() || f.pkgName() != "types" || depth > 4 {
+		return false
+	}
+	kt := c.P.keys()
+	n := 0
+	for _, g := range c.P.Funcs {
+		if g == f || g.Body == nil || !g.isHandWritten() || g.Parent != nil {
+			continue
+		}
+		calls := false
+		info := g.Pkg.TypesInfo
+		ast.Inspect(g.Body, func(nd ast.Node) bool {
+			if call, ok := nd.(*ast.CallExpr); ok {
+				if fo, _ := typeutil.Callee(info, call).(*types.Func); fo == f.Obj {
+					calls = true
+				}
+			}
+			return !calls
+		})
+		if !calls {
+			continue
+		}
+		n++
+		if b := kt.Builders[g.Name]; b != nil && len(b.Shape) > 0 {
+			continue
+		}
+		if !c.keyHelperOnly(g, depth+1) {
+			return false
+		}
+	}
+	return n > 0
 }
